@@ -252,6 +252,9 @@ pub fn parse_pnm(input: impl IntoIterator<Item = u8>) -> Result<Buf2<Color3>> {
 
     if data.len() < count as usize {
         Err(UnexpectedEnd)
+    } else if h.dims.0 == 0 && h.dims.1 > 0 {
+        // `Buf2` cannot represent a zero-width image with nonzero height
+        Err(InvalidNumber)
     } else {
         Ok(Buf2::new_from(h.dims, data))
     }
